@@ -19,3 +19,52 @@ Lemma constant_spectrum_refuted_in_doubles :
   Qsum (fl_const_power round53 d1000_1 d1000_3 1) == 1 # 2 /\
   Qsum (fl_const_power (fun q => q) d1000_1 d1000_3 1) == 1.
 Proof. vm_compute. repeat split; reflexivity. Qed.
+
+(* ------------------------------------------------------------------------------------------------------ *)
+(* The computation in doubles of the CURRENT code (fl_delta, fl_centre, fl_segment, fl_const_psd: what the
+   correspondence compares EXACTLY with the implementation for rnd = round53) is, for rnd = identity, the
+   exact model of Model/C18_Spectrum.v / C18_Laser.v about which the property theorems are proved. *)
+Require Import Cherab.Model.C18_Laser Cherab.Model.C18_Spectrum Cherab.Proofs.C18_Spectrum.
+
+Definition idq (q : Q) : Q := q.
+
+Lemma fl_segment_exact_is_model L n i : (0 <= i)%Z ->
+  fl_segment idq L n i = seg_at (L / inject_Z n) (Z.to_nat i).
+Proof. intro H. unfold fl_segment, seg_at, idq. rewrite Z2Nat.id by exact H. reflexivity. Qed.
+
+Lemma fl_centre_exact_is_model mn d i : fl_centre idq mn d i = centre mn d i.
+Proof. reflexivity. Qed.
+
+Section FlConst.
+Variable erf : Q -> Q.
+Variable sqrt2 sqrt2pi : Q.
+Hypothesis erf_ext : forall a b, a == b -> erf a == erf b.
+
+Lemma fl_loop_is_model s d d' n : sk s = SConst -> d == d' -> forall lo lo', lo == lo' ->
+  Forall2 Qeq (fl_overlap_loop idq (s_min s) (s_max s) d n lo) (bins_loop erf s d' n lo').
+Proof.
+  intros Hk Ed. induction n as [|n IH]; intros lo lo' El; cbn [fl_overlap_loop bins_loop]; constructor.
+  - transitivity (bin_psd erf s d' lo (lo + d)).
+    + unfold fl_overlap_psd, bin_psd, idq, fl_qmax, fl_qmin, qmax, qmin. rewrite Hk. reflexivity.
+    + apply (bin_psd_ext erf erf_ext); [exact El | rewrite Qred_correct, El, Ed; reflexivity].
+  - apply IH. unfold idq. rewrite Qred_correct, El, Ed. reflexivity.
+Qed.
+
+Theorem fl_const_psd_exact_is_model a : svalid SConst a = true ->
+  Forall2 Qeq (fl_const_psd idq (g_min a) (g_max a) (g_bins a)) (s_psd (scanon erf sqrt2 sqrt2pi SConst a)) /\
+  fl_delta idq (g_min a) (g_max a) (g_bins a) == s_delta (scanon erf sqrt2 sqrt2pi SConst a).
+Proof.
+  intro Hv. destruct (fresh_facts SConst a Hv) as (_ & _ & Hn & _).
+  assert (D : fl_delta idq (g_min a) (g_max a) (g_bins a) == s_delta (scanon erf sqrt2 sqrt2pi SConst a)).
+  { unfold fl_delta, idq, scanon, update_cache. cbn [s_delta sraw s_max s_min s_bins]. rewrite Qred_correct. reflexivity. }
+  split; [|exact D].
+  unfold fl_const_psd. set (d := fl_delta idq (g_min a) (g_max a) (g_bins a)) in *.
+  set (s := sraw sqrt2 sqrt2pi SConst a).
+  change (s_psd (scanon erf sqrt2 sqrt2pi SConst a)) with
+    (bins_loop erf s (s_delta (scanon erf sqrt2 sqrt2pi SConst a)) (Z.to_nat (g_bins a))
+       (nth 0 (s_wl (scanon erf sqrt2 sqrt2pi SConst a)) 0 - s_delta (scanon erf sqrt2 sqrt2pi SConst a) * (1 # 2))).
+  apply (fl_loop_is_model s); [reflexivity | exact D |].
+  destruct (fresh_centres erf sqrt2 sqrt2pi SConst a Hv 0%nat Hn) as [_ C]. rewrite C.
+  unfold idq, fl_centre, idq, qn. cbn [Z.of_nat inject_Z]. rewrite D. ring.
+Qed.
+End FlConst.
